@@ -18,6 +18,14 @@ def specs(tier, seed):
             if tier == 'quick' and n == 3 and sum(1 for k in combo if k != 'arb') > 1:
                 continue
             S.append(('rules', combo))
+    # the same control object applied again after a foreign change of the motor's duty cycle
+    for combo in ((), ('arb',), ('const',), ('arb', 'arb'), ('arb', 'const')):
+        S.append(('rules_again', combo))
+    # ... and inside simulations: the control reused after reset(), and after the user set the duty cycle between two runs
+    S.append(sim.spec('T3', schedule=(('run', 2), ('reset',), ('reinit',), ('run', 2)),
+                      control=('const', ((0.0, 10.0, 0.5),)), tag=':control_reused_after_reset'))
+    S.append(sim.spec('T1', schedule=(('run', 2), ('setpwm', -0.25), ('run', 2)),
+                      control=('const', ((0.0, 10.0, 0.5),)), tag=':duty_set_between_runs'))
     S.append(sim.spec('T3', schedule=(('run', 2),), control=('arb', -3, 3), tag=':wide'))
     S.append(sim.spec('T1', schedule=(('run', 2),), control=('arb', -3, 3), tag=':wide'))
     S.append(sim.spec('T1', schedule=(('run', 2),), control=('arbopt2',)))
@@ -34,6 +42,8 @@ def specs(tier, seed):
 def build(sp):
     if sp[0] == 'rules':
         return rules.ApplyRules(sp[1])
+    if sp[0] == 'rules_again':
+        return rules.ApplyRules(sp[1], again=True)
     return sim.build_spec(sp, ('C14',))
 
 
@@ -44,8 +54,8 @@ REQUIRED_TRIGGERS = {'quick': ('arb.default_is_one', 'arb.single_rule_clipped', 
 BOUNDS = {
     'quick': 'PWMControl.apply_rules on a real powertrain (T3) in an arbitrary state: rule sets of 0..3 rules drawn from '
              '{arbitrary-proposal rule, ConstantPWM, ReachAngularPosition, StartProportionalToAngularPosition, '
-             'StartLimitCurrent} with all parameters, windows and the state symbolic and proposals unbounded; whole '
-             'simulations K=2 with one arbitrary rule proposing in [-3,3] (T1, T3), on the self-locking T4 (arbitrary duty in [-1,1]; ConstantPWM rules that cut the supply and restore it) and with two optional arbitrary rules (T1)',
+             'StartLimitCurrent} with all parameters, windows and the state symbolic and proposals unbounded, five rule sets also applied a second time on the same control object after a foreign change of the duty cycle; whole '
+             'simulations K=2 with one arbitrary rule proposing in [-3,3] (T1, T3), on the self-locking T4 (arbitrary duty in [-1,1]; ConstantPWM rules that cut the supply and restore it) and with two optional arbitrary rules (T1); a ConstantPWM control reused after reset() (T3) and after the user set the duty cycle between two runs (T1)',
     'thorough': 'rule sets of 0..4 rules; simulations on T4/T6, conflicts on T3',
 }
 OUTSIDE = 'more than 4 rules; K>2 with symbolic proposals at every instant'
